@@ -266,6 +266,8 @@ class Walker:
         self.spawns = spawns          # list collecting (name, ir) of spawned blocks
         self.scopes = []              # per block: dict(guards=[(name, lock)], temps=[lock], loop=bool)
         self.nspawn = 0
+        self.in_cond = False
+        self.async_ctx = fn.is_async  # false in a sync fn and in a spawn_blocking closure (blocking is fine there)
 
     # -- helpers
     def unknown(self, out, what, line):
@@ -390,6 +392,17 @@ class Walker:
                         self.unknown(out, "async block (not spawned) containing lock operations", x.line)
                     i = j + 1
                     continue
+                if x.k == "id" and s in ("recv", "blocking_recv", "blocking_read", "blocking_write", "blocking_lock") \
+                        and self.async_ctx and i > 0 and is_t(nodes[i - 1], ".") and i + 1 < n and is_g(nodes[i + 1], "(") \
+                        and not nodes[i + 1].ch \
+                        and ((i + 2 >= n and self.in_cond)
+                             or (i + 2 < n and (is_t(nodes[i + 2], ";") or is_t(nodes[i + 2], "?") or is_g(nodes[i + 2], "{")
+                                                or (is_t(nodes[i + 2], ".") and not (i + 3 < n and is_t(nodes[i + 3], "await")))))):
+                    # a blocking receive / lock that is not awaited, used as a value here (not passed on as a future):
+                    # it parks the runtime worker that runs this task
+                    self.unknown(out, "blocking `.%s()` inside an async task (parks a runtime worker thread)" % s, x.line)
+                    i += 2
+                    continue
                 if x.k == "id" and s == "await" and i > 0 and is_t(nodes[i - 1], "."):
                     self.on_await(nodes, i, out, block_level, stmt_start)
                     i += 1
@@ -421,6 +434,7 @@ class Walker:
                     blk = self.spawn_block(g)
                     self.nspawn += 1
                     w = Walker(self.fn, self.spawns)
+                    w.async_ctx = nodes[i - 1].s == "spawn" and is_t(g.ch[0], "async")
                     w.nspawn = self.nspawn * 100
                     o = []
                     w.scopes = []
@@ -428,7 +442,9 @@ class Walker:
                     self.spawns.append(("%s#spawn%d" % (self.fn.qual, self.nspawn), o, blk.line))
                     self.nspawn = max(self.nspawn, w.nspawn // 100)
                 else:
+                    saved, self.in_cond = self.in_cond, False
                     self.walk(g.ch, out, False)
+                    self.in_cond = saved
             i += 1
         if block_level:
             pass
@@ -484,7 +500,9 @@ class Walker:
             j += 1
         if j >= len(nodes):
             raise TranslateError("%s: no block after `%s` at line %d" % (self.fn.qual, nodes[i].s, nodes[i].line))
+        saved, self.in_cond = self.in_cond, True
         self.walk(nodes[i + 1:j], out, False)
+        self.in_cond = saved
         return j
 
     def parse_if(self, nodes, i, out):
@@ -726,8 +744,8 @@ def translate(repo):
         if parts[0] not in ("handlers", "context", "server", "util") and rel_dir != ".":
             continue
         for nme in sorted(names):
-            if not nme.endswith(".rs") or nme in ("tests.rs", "test.rs"):
-                continue
+            if not nme.endswith(".rs") or nme in ("tests.rs", "test.rs", "verif_lock.rs"):
+                continue      # verif_lock.rs: the cfg-gated tracing wrappers around the tokio locks themselves
             path = os.path.join(root, nme)
             rel = os.path.relpath(path, src_root).replace(os.sep, "/")
             tree = nest(tokenize(open(path, encoding="utf8").read()))
@@ -788,7 +806,7 @@ def translate(repo):
                     if f.qual in stack:
                         alts.append([("unknown", "recursive call of %s (line %d)" % (f.qual, line))])
                     else:
-                        alts.append(inline(f.ir, stack + [f.qual]))
+                        alts.append([("frame", inline(f.ir, stack + [f.qual]), f.qual)])
                 if len(alts) == 1:
                     res.extend(alts[0])
                 else:
@@ -801,11 +819,163 @@ def translate(repo):
                 res.append(it)
         return res
 
-    table = {}
+    table, framed = {}, {}
     for q in sorted(programs):
         base = q.split("#")[0]
-        table[q] = simplify(inline(programs[q], [base]))
-    return {"programs": programs, "table": table, "lines": lines, "hashes": hashes}
+        framed[q] = inline(programs[q], [base])
+        table[q] = simplify(unframe(framed[q]))
+    return {"programs": programs, "table": table, "framed": framed, "lines": lines, "hashes": hashes}
+
+
+def unframe(ir):
+    res = []
+    for it in ir:
+        if it[0] == "frame":
+            res.extend(unframe(it[1]))
+        elif it[0] == "alt":
+            res.append(("alt", [unframe(b) for b in it[1]]))
+        elif it[0] == "loop":
+            res.append(("loop", unframe(it[1])))
+        else:
+            res.append(it)
+    return res
+
+
+# ------------------------------------------------------------------------------------------------ runtime traces
+class Machine:
+    """the structured program as a graph: is a runtime lock trace (of one task) a prefix of one of its control paths?
+    An inlined callee (frame) may return early at any point: the guards it acquired are released and the caller goes on."""
+
+    def __init__(self, ir):
+        self.kind, self.arg, self.nxt, self.abort = [], [], [], []
+        end = self.node("end", None, [])
+        start = self.build_frame(ir, end, None)
+        self.start = start
+
+    def node(self, kind, arg, nxt, abort=None):
+        self.kind.append(kind)
+        self.arg.append(arg)
+        self.nxt.append(list(nxt))
+        self.abort.append(abort)
+        return len(self.kind) - 1
+
+    def build_frame(self, body, after, outer_abort):
+        pop = self.node("pop", None, [after])
+        ab = self.node("abort", None, [pop])            # release what the frame acquired (any order), then leave
+        first = self.build(body, pop, ab)
+        return self.node("push", None, [first], ab)
+
+    def build(self, items, after, ab):
+        nxt = after
+        for it in reversed(items):
+            k = it[0]
+            if k == "acq":
+                nxt = self.node("acq", (it[1], it[2]), [nxt], ab)
+            elif k == "rel":
+                nxt = self.node("rel", it[1], [nxt], ab)
+            elif k == "alt":
+                nxt = self.node("eps", None, [self.build(b, nxt, ab) for b in it[1]] or [nxt], ab)
+            elif k == "loop":
+                head = self.node("eps", None, [nxt], ab)
+                body = self.build(it[1], head, ab)
+                self.nxt[head].append(body)
+                nxt = head
+            elif k == "frame":
+                nxt = self.build_frame(it[1], nxt, ab)
+            else:                                           # wait / waitmain / unknown / skip: no lock event
+                nxt = self.node("eps", None, [nxt], ab)
+        return nxt
+
+    def accepts(self, trace, limit=3_000_000):
+        n = len(trace)
+        init = (self.start, 0, frozenset(), ())
+        seen = {init}
+        todo = [init]
+        best = 0
+        while todo:
+            node, pos, held, stack = todo.pop()
+            if pos > best:
+                best = pos
+            if pos == n:
+                return True, n
+            if len(seen) > limit:
+                return None, best
+            k = self.kind[node]
+            succ = []
+            ev = trace[pos]
+            if k == "acq":
+                l, m = self.arg[node]
+                if ev[0] == "acq" and ev[1] == l and ev[2] == m and l not in held:
+                    succ.append((self.nxt[node][0], pos + 1, held | {l}, stack))
+            elif k == "rel":
+                l = self.arg[node]
+                if l in held:
+                    if ev[0] == "rel" and ev[1] == l:
+                        succ.append((self.nxt[node][0], pos + 1, held - {l}, stack))
+                else:
+                    succ.append((self.nxt[node][0], pos, held, stack))
+            elif k == "eps":
+                for x in self.nxt[node]:
+                    succ.append((x, pos, held, stack))
+            elif k == "push":
+                succ.append((self.nxt[node][0], pos, held, stack + (held,)))
+            elif k == "pop":
+                succ.append((self.nxt[node][0], pos, held, stack[:-1]))
+            elif k == "abort":
+                mine = held - stack[-1]
+                if not mine:
+                    succ.append((self.nxt[node][0], pos, held, stack))
+                elif ev[0] == "rel" and ev[1] in mine:
+                    succ.append((node, pos + 1, held - {ev[1]}, stack))
+            elif k == "end":
+                pass
+            # early return of the enclosing frame (`return`, `?`, the future dropped)
+            a = self.abort[node]
+            if a is not None and k != "push":
+                succ.append((a, pos, held, stack))
+            for st in succ:
+                if st not in seen:
+                    seen.add(st)
+                    todo.append(st)
+        return False, best
+
+
+def check_traces(res, events, max_len=400):
+    """events: [(task, kind, lockname)] in global order.  Returns (tasks checked, events, unexplained: [(task, trace, best)])"""
+    per = {}
+    for task, kind, lock in events:
+        if lock not in LOCKS:
+            per.setdefault(task, []).append(("bad", lock, kind))
+            continue
+        if kind == "rel":
+            per.setdefault(task, []).append(("rel", LOCKS[lock]))
+        else:
+            per.setdefault(task, []).append(("acq", LOCKS[lock], MODES[kind]))
+    machines = {}
+    cands = [q for q in sorted(res["framed"]) if any_effect(res["table"][q])]
+    bad, nev = [], 0
+    explained_by = {}
+    for task, tr in per.items():
+        tr = tr[:max_len]
+        nev += len(tr)
+        if any(e[0] == "bad" for e in tr):
+            bad.append((task, tr, 0, "unknown lock name"))
+            continue
+        first = tr[0]
+        ok, best_all = False, 0
+        order = [MAIN] + [q for q in cands if q != MAIN] if task == "main" else cands
+        for q in order:
+            if q not in machines:
+                machines[q] = Machine(res["framed"][q])
+            r, best = machines[q].accepts(tr)
+            best_all = max(best_all, best)
+            if r:
+                ok = True
+                explained_by[q] = explained_by.get(q, 0) + 1
+                break
+        if not ok:
+            bad.append((task, tr, best_all, "no program of the table has this trace as a path"))
+    return len(per), nev, bad, explained_by
 
 
 def contains(ir, kind):
